@@ -42,7 +42,11 @@ func (ec *EvalCtx) describeTarget(tgt string) []tgtDesc {
 		return []tgtDesc{{key: allocKey}}
 	}
 	if strings.HasPrefix(tgt, "key ") {
-		return []tgtDesc{{key: strings.TrimSpace(tgt[4:])}}
+		k := strings.TrimSpace(tgt[4:])
+		if strings.HasSuffix(k, "<") {
+			return []tgtDesc{{key: k, prefix: true}}
+		}
+		return []tgtDesc{{key: k}}
 	}
 	elems, allElems := false, false
 	if strings.HasSuffix(tgt, "[**]") {
